@@ -65,6 +65,10 @@ FORMATS = {f.name: f for f in [
         [("name", S), ("size", I)], comment="#"),
     Fmt("vcf", ".vcf", "bionumpy.io.vcf_buffers.VCFBuffer", "tsv", _VCF8, comment="#"),
     Fmt("vcfs", ".vcf", "bionumpy.io.vcf_buffers.VCFWithInfoAsStringBuffer", "tsv", _VCF8, comment="#"),
+    Fmt("vcf2", ".vcf", "bionumpy.io.vcf_buffers.VCFBuffer2", "tsv", _VCF8 + [("genotype", "gt_text")], comment="#"),
+    Fmt("vcfm", ".vcf", "bionumpy.io.vcf_buffers.VCFMatrixBuffer", "tsv", _VCF8 + [("genotypes", "gt3")], comment="#"),
+    Fmt("vcfpm", ".vcf", "bionumpy.io.vcf_buffers.PhasedVCFMatrixBuffer", "tsv", _VCF8 + [("genotypes", "gt3")], comment="#"),
+    Fmt("vcfph", ".vcf", "bionumpy.io.vcf_buffers.PhasedHaplotypeVCFMatrixBuffer", "tsv", _VCF8 + [("genotypes", "hap")], comment="#"),
     Fmt("sam", ".sam", "bionumpy.io.buffers.sam.SAMBuffer", "tsv",
         [("name", S), ("flag", I), ("chromosome", S), ("position", I), ("mapq", I), ("cigar", S),
          ("next_chromosome", S), ("next_position", I), ("length", I), ("sequence", S), ("quality", S),
@@ -129,8 +133,10 @@ def serialize(case):
             out.append((l + e).encode("latin-1"))
         out.append(record_bytes(case, rec))
     data = b"".join(out)
-    if not case.get("final_nl", True) and data.endswith(e.encode()):
-        data = data[:-len(e)]
+    eb = e.encode()
+    if not case.get("final_nl", True) and data.endswith(eb) and not data.endswith(eb + eb) and data != eb:
+        # "no final newline" means the last line is not terminated; an empty last line has nothing to leave unterminated
+        data = data[:-len(eb)]
     return data
 
 
@@ -154,8 +160,58 @@ def parse_value(tag, text):
     raise ValueError(tag)
 
 
+VCF_FAMILY = ("vcf", "vcfs", "vcf2", "vcfm", "vcfpm", "vcfph")
+_HAP_CODE = {"0": 0, "1": 1, "2": 2, "3": 3, "4": 4, ".": 5}
+
+
+def parse_info(text, decl):
+    """Typed INFO according to the header declaration [[ID, Number, Type], ...]."""
+    items = {} if text == "." else dict((kv.split("=", 1) + [None])[:2] for kv in text.split(";"))
+    out = []
+    for key, number, typ in decl:
+        is_list = not (number.isdigit() and int(number) <= 1)
+        val = items.get(key)
+        present = key in items
+        if typ == "Flag":
+            out.append(present)
+        elif typ == "Integer":
+            if is_list:
+                out.append([int(x) for x in val.split(",")] if present else [])
+            else:
+                out.append(int(val) if present else 0)
+        elif typ == "Float":
+            if is_list:
+                out.append([float(x) for x in val.split(",")] if present else [])
+            else:
+                out.append(float(val) if present else float("nan"))
+        else:
+            out.append(val if present else "")
+    return tuple(out)
+
+
+def vcf_expected_rows(case):
+    name = case["fmt"]
+    decl = case.get("info_decl")
+    rows = []
+    for rec in case["records"]:
+        base = [parse_value(tag, txt) for (n, tag), txt in zip(_VCF8, rec[:8])]
+        if decl and name != "vcfs":
+            base[7] = parse_info(rec[7], decl)
+        samples = rec[9:]
+        if name == "vcf2":
+            base.append([s.split(":")[0] for s in samples])
+        elif name in ("vcfm", "vcfpm"):
+            base.append([s[:3] for s in samples])
+        elif name == "vcfph":
+            base.append([_HAP_CODE[ch] for s in samples for ch in (s[0], s[2])])
+        rows.append(tuple(base))
+    return rows
+
+
 def expected_rows(case):
     fmt = FORMATS[case["fmt"]]
+    if fmt.name in VCF_FAMILY:
+        return vcf_expected_rows(case)
     rows = []
     for rec in case["records"]:
         if fmt.name == "sam":
@@ -180,6 +236,17 @@ def column_to_list(col):
         return table_rows(col)
     if isinstance(col, EncodedRaggedArray):
         return col.tolist()
+    if type(col).__name__ == "StringArray":
+        def dec(x):
+            return [dec(y) for y in x] if isinstance(x, list) else x.decode("latin-1")
+        return dec(col.raw().tolist())
+    if isinstance(col, EncodedArray) and type(col.encoding).__name__ in ("_GenotypeRowEncoding", "_PhasedGenotypeRowEncoding"):
+        raw = np.asarray(col.raw())
+        if raw.ndim == 2 and raw.shape[1] == 0:
+            return [[] for _ in range(raw.shape[0])]
+        return [bytes(np.asarray(col.encoding.decode(row), dtype=np.uint8)).decode("latin-1").split("\t") for row in raw]
+    if isinstance(col, EncodedArray) and type(col.encoding).__name__ == "_PhasedHaplotypeRowEncoding":
+        return np.asarray(col.raw()).tolist()
     if isinstance(col, EncodedArray):
         if col.ndim == 1:
             return list(col.to_string())
